@@ -26,7 +26,7 @@ MANIFEST_INFO = {
     "level_note": "Totality only: whether a pair mismatches is taken from the implementation's own verdict (C06 decides verdicts); the text_repr alphabet holds one member of every character class its escaping logic branches on.",
 }
 
-EXTRA_STR = ["\x00\x1b", "it's \"q\" \\", "\U0001F600é", "line1\nline2", "'''\n\\"]
+EXTRA_STR = ["\x00\x1b", "it's \"q\" \\", "\U0001F600é", "line1\nline2", "'''\n\\", "name-\udcff"]  # (the last: a lone surrogate, as os.fsdecode yields for undecodable file names)
 EXTRA_BYTES = [b"\x00\xfe", b"'\"\\\n", b"\xff\n\xfe"]
 
 
